@@ -465,5 +465,5 @@ pub fn run(ctx: &mut Ctx) {
 	ctx.rule = "pairs of jars over up to five generated classes, each client-only / server-only / identical / different on the two sides; for a differing class the field, method and interface lists of the two sides are sub-selections of a common pool (so: interleavings, prefixes, suffixes, subsequences) with the server order optionally reversed / rotated / swapped (incompatible orders); equal headers and equal shared members; resources client-only / server-only / equal / different, manifest, directory entries, .SF/.RSA files, a server-only library class outside net/minecraft/. Oracle (validity predicates): entry set = union minus signature files minus server-only bundled libraries, each once (in memory and through the zip layer); one-sided class == input + exactly one Environment mark of its side; identical class byte-identical; merged class: members and interfaces = union exactly once, client order preserved, server order preserved when the common elements have the same relative order, one-sided members/interfaces marked with their side, shared ones unmarked, header unchanged. Non-trivial = a merged class with >=1 client-only, >=1 server-only and >=2 shared members; distinct by case hash".into();
 	ctx.assume("headers (version, access, super class, class attributes) and shared members are equal on both sides; which side wins otherwise is not stated");
 	ctx.assume("record components and permitted subclasses are not generated for classes that differ between the sides (the statement lists fields, methods and interfaces)");
-	ctx.run_sub("merge_jars", ctx.tier.pick(12000, 600000), strategy, check);
+	ctx.run_sub("merge_jars", ctx.tier.pick(36000, 600000), strategy, check);
 }
